@@ -49,6 +49,11 @@ func runC20(x *xctx) *violation {
 	case m < 7:
 		return c20TempFiles(x)
 	case m < 8:
+		if x.t.Bool(simrt.KCfg, 35) {
+			// concurrent /saveconfig and /deleteconfig requests: must take effect
+			// as if performed one after another (shared with the C19 engine)
+			return c19Concurrent(x)
+		}
 		return c20WebMix(x)
 	case m < 9:
 		return c20Fetch(x)
